@@ -10,8 +10,9 @@
   Quantifier: all byte strings, little- and big-endian.
 
   The theorems are about `MdModel.Dump.readAll` — `Minidump::read` followed by `get_stream` of the
-  ten modelled stream types (thread list, module list, unloaded-module list, memory list,
-  memory-64 list, memory-info list, thread names, thread-info list, handle data, exception) — the
+  eleven modelled stream types (thread list, module list, unloaded-module list, memory list,
+  memory-64 list, memory-info list, thread names, thread-info list, handle data, exception,
+  Crashpad info) — the
   very function the compiled driver runs and the `read` engine compares with the real reader on
   every check. In the model every Rust operation that can panic (`+ - +=` on `usize`, `&b[lo..hi]`,
   array indexing) is a checked primitive with an explicit `panic` outcome, a loop that could fail to
@@ -28,11 +29,11 @@
   the per-reader lemmas (`MdProofs.Lemmas.BytesStreams`) hold for either `Endian` explicitly.
 
   PARTIAL: the per-stream printers (other than the exception parameter loop), the text-stream
-  iterators, contexts, MinidumpSystemInfo/MiscInfo/CrashpadInfo/... and the third-party decoders
+  iterators, contexts, MinidumpSystemInfo/MiscInfo/BreakpadInfo/MacCrashInfo/... and the third-party decoders
   (`encoding_rs`, `procfs-core`, `time`, `uuid`, `range-map`) are not modelled; for them the
   `read` engine's oracle (catch_unwind + counting allocator + time budget) is a sampled check.
 -/
-import MdProofs.Lemmas.BytesCount
+import MdProofs.Lemmas.BytesTotal
 namespace MdModel.Dump
 open MdModel MdModel.Gen.Layouts
 
@@ -166,19 +167,49 @@ theorem alloc_backed_tiny (ms : MemSizes) (hms : ms.Bounded) (b : Bytes) (h : b.
   unfold K at this
   omega
 
-/-- **C01.3'** The number of allocations is linear in the file length: a constant per stream plus
-    a constant per list entry the stream is long enough to hold. -/
-theorem alloc_count_bound (ms : MemSizes) (b : Bytes) :
-    (readAll ms b).allocs.length ≤ 21 + 10 * (b.size / 8) :=
-  cnt_readAll ms b
+/-- **C01.3b** For the ten list/record streams the NUMBER of allocations is linear in the file
+    length: a constant per stream plus a constant per list entry the stream is long enough to hold. -/
+theorem alloc_count_bound (ms : MemSizes) (b : Bytes) (d : Dump) :
+    (readCore ms b d).allocs.length ≤ 21 + 10 * (b.size / 8) :=
+  cnt_readCore ms b d
 
-/-- **C01.3''** "memory use is at most quadratic in the input size": the sum of ALL allocation
+/-- **C01.3c** The Crashpad-info stream (whose allocation count is quadratic: module links x list
+    entries) is bounded through the string budget of `charge_string_budget` (the repair of the
+    cubic blow-up this check found): one module's annotations request at most `9 * len` bytes —
+    however many entries alias however long a string — and the whole stream at most
+    `11 * len + (len / 12) * 9 * len`. -/
+theorem crashpad_budget (ms : MemSizes) (hms : ms.Bounded) (b all : Bytes) (e : Endian) :
+    (∀ index loc, totalBytes (readModuleCrashpadInfo ms all e index loc).allocs ≤ 9 * all.size) ∧
+    totalBytes (readCrashpadInfo ms b all e).allocs ≤ 11 * all.size + (all.size / 12) * (9 * all.size) :=
+  ⟨fun index loc => total_readModuleCrashpadInfo ms hms all e index loc, total_readCrashpadInfo ms hms b all e⟩
+
+/-- **C01.3d** "memory use is at most quadratic in the input size": the sum of ALL allocation
     requests of `readAll` (an upper bound of the peak) is at most
-    `(21 + 10·⌊len/8⌋) · 32 · len  ≤  40·len² + 672·len` bytes. -/
+    `(21 + 10*(len/8)) * 32 * len + 11*len + (len/12) * 9 * len  <=  41*len^2 + 683*len` bytes. -/
 theorem alloc_total_quadratic (ms : MemSizes) (hms : ms.Bounded) (b : Bytes) (hsz : SliceLen b.size) :
-    totalBytes (readAll ms b).allocs ≤ (21 + 10 * (b.size / 8)) * (K * b.size) := by
-  have h1 : ∀ a ∈ (readAll ms b).allocs, a.bytes ≤ K * b.size := fun a ha => alloc_backed ms hms b hsz a ha
-  exact Nat.le_trans (totalBytes_le _ _ h1) (Nat.mul_le_mul_right _ (alloc_count_bound ms b))
+    totalBytes (readAll ms b).allocs ≤
+      (21 + 10 * (b.size / 8)) * (K * b.size) + (11 * b.size + (b.size / 12) * (9 * b.size)) := by
+  unfold readAll
+  split
+  · rw [total_pure]; omega
+  · rename_i d _
+    have hcore : totalBytes (readCore ms b d).allocs ≤ (21 + 10 * (b.size / 8)) * (K * b.size) :=
+      Nat.le_trans (totalBytes_le _ _ (readCore_safe ms hms b d hsz).2) (Nat.mul_le_mul_right _ (alloc_count_bound ms b d))
+    have hcp : totalBytes (getStream d b ST_CRASHPAD_INFO (fun s => readCrashpadInfo ms s b d.endian)).allocs
+        ≤ 11 * b.size + (b.size / 12) * (9 * b.size) := by
+      unfold getStream
+      split
+      · rw [total_pure]; omega
+      · rename_i s _
+        have := total_readCrashpadInfo ms hms s b d.endian
+        unfold M.catch'
+        split <;> exact this
+    have h2 := fun c : Core => total_bind (C := 0) hcp
+      (f := fun crashpad => (pure (.ok ⟨d, c.threads, c.modules, c.unloaded, c.memory, c.memory64, c.memInfo, c.threadNames,
+        c.threadInfo, c.handles, c.exception, crashpad⟩) : M (Except Err Parsed)))
+      (fun _ _ => by rw [total_pure]; omega)
+    have h1 := total_bind hcore (fun c _ => h2 c)
+    omega
 
 /-! ## 4. "always terminates": the directory loop -/
 
